@@ -17,7 +17,7 @@ func init() {
 		Level: "fault_enumeration",
 		Rule: "storage-corruption fault on reads of bytecode records: one run = one generated straight-line program using all twelve opcodes (random symbols, selectors, 1-3 byte integers) whose stored record is damaged in EVERY way of the catalogue - truncation at every byte, every byte replaced by each of {0x00, 0xff, b+1, b-1, 0x01, 0x05, 0x0c, 0x0d}, garbage appended - and then read by two consumers: the engine/VM (two requests drive it through every instruction) and an operator running the disassembler; " +
 			"an independent decoder classifies each damaged record as a sequence of complete valid instructions or as malformed at instruction i; non-trivial = the damage made the record malformed; distinct = distinct (malformation kind, instruction opcode) pairs per program",
-		Runs:       map[string]int{"quick": 600, "thorough": 30000},
+		Runs:       map[string]int{"quick": 240, "thorough": 30000},
 		MaxSeconds: map[string]int{"quick": 45, "thorough": 900},
 		Run:        runC15,
 		Assumptions: []string{
@@ -61,6 +61,13 @@ func runC15(c *core.Ctx) *core.Outcome {
 	code = append(code, app.Inst{Op: app.CROAK, N: flagB, M: true})
 	if t.Chance(1, 2) {
 		code = append(code, app.Inst{Op: app.MSINK})
+	}
+	if t.Chance(1, 4) {
+		// a long record (> 255 bytes), so that a damaged length byte of 0xff still points inside it
+		for k := 0; k < 12; k++ {
+			code = append(code, app.Inst{Op: app.MOUT, A: fmt.Sprintf("label%dxxxxxxxxxxxxxxxx", k), B: fmt.Sprintf("%d", 50+k)})
+		}
+		o.Probes["long_record"]++
 	}
 	code = append(code, app.Inst{Op: app.HALT})
 	code = append(code, app.Inst{Op: app.INCMP, A: "nb", B: "zz"})
